@@ -98,18 +98,20 @@ CHECKS["C05"] = {
     "pkg": "./c05/",
     "level": "fault_enumeration",
     "technique": "stateful property-based testing (rapid) over the real mmap queue with self-describing messages, crash images between the individual stores of an append, overlapping appenders at the reserve/publish seam, plus a goroutine stress variant",
-    "rule": ("rapid state machine on queue.NewQueue: put (8 B..3 MiB), overlappingPut (appender B runs complete Puts while A sits between reserving space and publishing its sequence), crashPut "
-             "(directory image before/after each WriteBytes/PutUint64/PutUint32 of the append, each image reopened with NewQueue, scanned and appended to), reopen, ack, gc; after every step every sequence in "
-             "(ack, appended] must return the exact bytes of exactly one appended message, the seq->message mapping never changes, appended == successful appends - 1. TestRollOver: 30-70 MiB messages crossing the "
-             "128 MiB data page. TestConcurrentAppenders: 2-6 goroutines. non-trivial = history with a recovered crash image, or an overlapping append followed by a reopen; each recovered crash point counts as one case; "
-             "distinct = (history, image tag) hash"),
+    "rule": ("rapid state machine on queue.NewQueue: put (0 B..3 MiB incl. empty, 1-7 B, exact fit of the data page), putTooBig (>128 MiB refused, no sequence consumed), overlappingPut (appender B runs complete Puts while A sits "
+             "between reserving space and publishing its sequence), crashPut (directory image before/after each WriteBytes/PutUint64/PutUint32 of the append, each image reopened with NewQueue, scanned and appended to incl. a 0/5-byte message), "
+             "reopen (also at an index-page boundary), ack (partial / everything), gc, gcInterleaved (a generated script of appends sized relative to the room left in the data page - fit / exact fit / roll-over -, acks and reads runs while GC sits at "
+             "one of its three lock-free page-store calls: index GetPage, data TruncatePages, index TruncatePages); page-boundary profile (1/2 of the histories): a fill message brings the cursor to 0..1 MiB before the page end (<= 3 per history). "
+             "After every step every sequence in (ack, appended] must return exactly the message appended under it (a non-overlapped append gets appended+1; overlapped ones are matched once), the seq->message mapping never changes, "
+             "appended == successful appends - 1. TestRollOver: 30-70 MiB messages crossing the 128 MiB data page. TestConcurrentAppenders: 2-6 goroutines. non-trivial = history with a recovered crash image, or an overlapping append followed "
+             "by a reopen, or a GC interleaved with appends; each recovered crash point counts as one case; distinct = (history, image tag) hash"),
     "level_text": ("Fault enumeration at store granularity (every store of an append in the thorough tier, a generated sample of 4 per append in the quick tier) over generated histories, "
                    "plus exploration of appender overlap at the one seam the implementation has and an unsystematic goroutine variant with an interleaving-independent oracle."),
-    "level_note": "Process-crash model for MAP_SHARED pages (stores survive in program order). Overlap is driven through a goroutine with a 3 ms rendezvous window, so the schedule of that action is best-effort deterministic; the oracle does not depend on it.",
-    "assumptions": ["messages are >= 8 bytes (self-describing id)", "data page size is the 128 MiB constant", "crash = process death"],
+    "level_note": "Process-crash model for MAP_SHARED pages (stores survive in program order). Overlap is driven through a goroutine with a 3 ms rendezvous window, so the schedule of that action is best-effort deterministic; the oracle does not depend on it. GC interleavings are harness-owned and deterministic (the script runs to completion at the seam; 10 s fallback if the implementation blocks there). In histories holding >= one data page, crashPut is limited to once with 3 images, also in the thorough tier.",
+    "assumptions": ["data page size is the 128 MiB constant", "crash = process death"],
     "tests": [
-        {"name": "TestQueueHistory", "quick": 60, "thorough": {"checks": 400, "shards": 14}},
-        {"name": "TestRollOver", "quick": 2, "thorough": {"checks": 10, "shards": 2}},
+        {"name": "TestQueueHistory", "quick": 60, "thorough": {"checks": 400, "shards": 12}},
+        {"name": "TestRollOver", "quick": 6, "thorough": {"checks": 10, "shards": 2}},
         {"name": "TestConcurrentAppenders", "quick": {}, "thorough": {"race": True}},
     ],
 }
